@@ -179,6 +179,8 @@ func (o storeOp) line() string {
 		return fmt.Sprintf("%s %s %d", o.kind, hb, o.id)
 	case "latest", "list", "purge":
 		return o.kind + " " + hb
+	case "visitk":
+		return fmt.Sprintf("visitk %d", o.id)
 	}
 	return o.kind
 }
@@ -266,6 +268,31 @@ func (b *backend) apply(o storeOp) (out string) {
 		}
 		sort.Slice(boxes, func(i, j int) bool { return boxKey(boxes[i]) < boxKey(boxes[j]) })
 		return "boxes:" + strings.Join(boxes, "&")
+	case "visitk":
+		// a visitor that says "stop" at the o.id-th non-empty mailbox it is shown: it must never be called again
+		shown, after := 0, 0
+		stopped := false
+		err := b.st.VisitMailboxes(func(ms []storage.Message) bool {
+			if stopped {
+				after++
+				return false
+			}
+			if len(ms) > 0 {
+				shown++
+				if shown >= o.id {
+					stopped = true
+					return false
+				}
+			}
+			return true
+		})
+		if err != nil {
+			return errClass(err)
+		}
+		if after > 0 {
+			return fmt.Sprintf("called-after-stop:%d", after)
+		}
+		return fmt.Sprintf("shown:%d", shown)
 	case "reopen":
 		if err := b.reopen(); err != nil {
 			return errClass(err)
@@ -458,8 +485,10 @@ func genHistory(r *rand.Rand, p storeProfile, names []string, nOps int) []storeO
 			ops = append(ops, storeOp{kind: "rm", box: box, id: id})
 		case x < 91:
 			ops = append(ops, storeOp{kind: "purge", box: box})
-		case x < 96:
+		case x < 95:
 			ops = append(ops, storeOp{kind: "visit"})
+		case x < 97:
+			ops = append(ops, storeOp{kind: "visitk", id: 1 + r.Intn(3)})
 		default:
 			if r.Intn(100) < p.reopenPct {
 				ops = append(ops, storeOp{kind: "reopen"})
@@ -584,6 +613,10 @@ func runStoreHistory(c *core.Ctx, m *core.Model, r *rand.Rand, p storeProfile, h
 		// implementation-only contract first, so that a real defect yields a failing input and not just a divergence
 		if strings.HasPrefix(om, "panic") || strings.HasPrefix(of, "panic") || om == "nil-nil" || of == "nil-nil" || strings.HasPrefix(om, "duplicate-id") || strings.HasPrefix(of, "duplicate-id") {
 			c.Fail("store-contract", append([]string{}, trace...), "mem: "+om+" file: "+of+"  (panic / nil result without error / an id handed out twice for one mailbox)", "")
+			return
+		}
+		if o.kind == "visitk" && (strings.HasPrefix(om, "called-after-stop") || strings.HasPrefix(of, "called-after-stop")) {
+			c.Fail("visit-stops-when-told", append([]string{}, trace...), "a visitor that answered 'stop' was called again — mem: "+om+"  file: "+of, "")
 			return
 		}
 		if maxkb == 0 && om != of && o.kind != "visit" {
